@@ -1357,6 +1357,22 @@ func (c *ixCtx) normaliseReq(base ssa.Value, need int, params map[ssa.Value]stri
 					}
 				}
 			}
+			// x[:len(x)-k] ≥ n  ⇒  x ≥ n+k   (the high bound is the length of the same text
+			// minus a constant)
+			if x.Low == nil && x.High != nil {
+				if bo, ok := x.High.(*ssa.BinOp); ok && bo.Op == token.SUB {
+					if k, ok := bo.Y.(*ssa.Const); ok {
+						if cv := constVal(k); cv.k == kInt && cv.i >= 0 {
+							if lc, ok := bo.X.(*ssa.Call); ok {
+								if bi, ok := lc.Call.Value.(*ssa.Builtin); ok && bi.Name() == "len" && len(lc.Call.Args) == 1 &&
+									c.exprKey(lc.Call.Args[0], params, 0) == c.exprKey(x.X, params, 0) {
+									return c.normaliseReq(x.X, need+int(cv.i), params, depth+1)
+								}
+							}
+						}
+					}
+				}
+			}
 		case *ssa.Call:
 			if cal := x.Call.StaticCallee(); cal != nil && cal.Pkg != nil && inModule(cal.Pkg.Pkg.Path()) {
 				if rl := c.retLen(cal, 0); rl.ok {
